@@ -16,7 +16,7 @@ func init() { workloads["C08"] = c08 }
 // C08 — dictionary enumeration, counts, Contains, Cardinality over all
 // provenances (built / re-opened / merged once / merged twice).
 func c08(c *Ctx) {
-	n := c.N(160, 2400)
+	n := c.N(320, 4000)
 	for i := 0; i < n; i++ {
 		if !c.Mine(i) {
 			continue
